@@ -708,3 +708,141 @@ def shuffle_doc(rng, forest):
     """document order for the parsers: any permutation of the siblings that keeps list keys first and the relative order of
     the instances of user-ordered / duplicate-instance nodes (tg.scramble)"""
     return tg.scramble(rng, forest)
+
+
+# ----------------------------------------------------------------------------------------------------------------
+# histories edit -> validate -> edit -> validate (C07)
+# ----------------------------------------------------------------------------------------------------------------
+
+def full_eq(a, b):
+    if a.sn is not b.sn or a.val != b.val or len(a.kids) != len(b.kids):
+        return False
+    return all(full_eq(x, y) for x, y in zip(a.kids, b.kids))
+
+
+def addr_step(n):
+    sn = n.sn
+    if sn.kind == "list" and sn.keys:
+        return "%d[%s]" % (sn.sid, ",".join(tg.hx(k.val) for k in n.kids[:len(sn.keys)]))
+    if sn.kind == "leaflist":
+        return "%d=%s" % (sn.sid, tg.hx(n.val))
+    return "%d" % sn.sid
+
+
+def join_addr(p, step):
+    return step if p == "-" else p + "/" + step
+
+
+class HistGen:
+    """A history is a list of protocol step tokens: C:<addr>:<dump>  D:<addr>  V.  The python side only tracks the explicit
+    content (what a client configured); every edit is the structural difference between the current explicit tree and a random
+    valid edit of it (treegen), expressed with the two primitives so that untouched nodes keep their flags.
+
+    Variations that matter for the flag logic: the data of a case that is being replaced is sometimes left for validation to
+    auto-delete; content for a non-presence container that exists only as a default node is either added below it or given as a
+    second, explicit instance of the container (validation removes the default one)."""
+
+    def __init__(self, rng, schema, gen, max_tokens=52):
+        self.rng, self.s, self.g, self.max_tokens = rng, schema, gen, max_tokens
+
+    def history(self, nvalid, mutate_last=None):
+        """-> (steps, explicit trees after every validation)"""
+        E = []
+        steps, trees = [], []
+        for i in range(nvalid):
+            B = self.g.tree() if i == 0 else self.g.edit(E, rate=self.rng.choice([0.15, 0.3, 0.5]))
+            ops = []
+            self.ops_level("-", self.s.top, E, B, ops, validated=(i > 0))
+            if len(steps) + len(ops) + 1 > self.max_tokens:
+                break
+            steps += ops + ["V"]
+            E = B
+            trees.append([n.clone() for n in B])
+        return steps, trees
+
+    # -- the primitives that take A to B at one sibling level ---------------------------------------------------------
+    def C(self, paddr, n, out, validated):
+        """create subtree n below paddr; a non-presence container whose default instance exists may be filled in place"""
+        if n.sn.np_cont() and validated and self.rng.random() < 0.5:
+            a = join_addr(paddr, addr_step(n))
+            for k in n.kids:
+                self.C(a, k, out, validated)
+            return
+        out.append("C:%s:%s" % (paddr, tg.tok([n])))
+
+    def old_case_sids(self, skids, A, B):
+        """schema ids of the data of cases that A has and B replaces by another case of the same choice"""
+        res = set()
+
+        def go(kids):
+            for k in kids:
+                if k.kind == "choice":
+                    ca = [c for c in k.kids if any(tg.TreeGen.under(x.sn, c) for x in A)]
+                    cb = [c for c in k.kids if any(tg.TreeGen.under(x.sn, c) for x in B)]
+                    if ca and cb and ca[0] is not cb[0] and self.rng.random() < 0.5:
+                        res.update(x.sn.sid for x in A if tg.TreeGen.under(x.sn, ca[0]))
+                    for c in k.kids:
+                        go(c.kids)
+        go(skids)
+        return res
+
+    def ops_level(self, paddr, skids, A, B, out, validated):
+        keep_for_autodel = self.old_case_sids(skids, A, B)
+        sids = []
+        for n in A + B:
+            if n.sn.sid not in sids:
+                sids.append(n.sn.sid)
+        dels, adds = [], []
+        for sid in sorted(sids):
+            a = [n for n in A if n.sn.sid == sid]
+            b = [n for n in B if n.sn.sid == sid]
+            sn = (a or b)[0].sn
+            if sn.dup_inst():
+                if len(a) != len(b) or not all(full_eq(x, y) for x, y in zip(a, b)):
+                    dels += ["D:" + join_addr(paddr, "%d#1" % sid)] * len(a)
+                    for n in b:
+                        self.C(paddr, n, adds, validated)
+                continue
+            if sn.kind == "leaf":
+                if a and b and a[0].val == b[0].val:
+                    continue
+                if a and sid not in keep_for_autodel:
+                    dels.append("D:" + join_addr(paddr, addr_step(a[0])))
+                if b:
+                    self.C(paddr, b[0], adds, validated)
+                continue
+            if sn.kind == "container":
+                if a and b:
+                    sub = []
+                    self.ops_level(join_addr(paddr, addr_step(a[0])), sn.kids, a[0].kids, b[0].kids, sub, validated)
+                    adds += sub
+                elif a:
+                    if sid not in keep_for_autodel:
+                        dels.append("D:" + join_addr(paddr, addr_step(a[0])))
+                else:
+                    self.C(paddr, b[0], adds, validated)
+                continue
+            # keyed list / configuration leaf-list
+            bk = {n.key(): n for n in b}
+            ak = {n.key(): n for n in a}
+            kept = [n for n in a if n.key() in bk]
+            new = [n for n in b if n.key() not in ak]
+            if sn.is_userord() and [n.key() for n in kept] + [n.key() for n in new] != [n.key() for n in b]:
+                # the order of B cannot be reached by deleting and appending: re-create the whole list
+                for n in a:
+                    dels.append("D:" + join_addr(paddr, addr_step(n)))
+                for n in b:
+                    self.C(paddr, n, adds, validated)
+                continue
+            for n in a:
+                if n.key() not in bk and sid not in keep_for_autodel:
+                    dels.append("D:" + join_addr(paddr, addr_step(n)))
+            if sn.kind == "list":
+                nk = len(sn.keys)
+                for n in kept:
+                    sub = []
+                    self.ops_level(join_addr(paddr, addr_step(n)), sn.kids[nk:], n.kids[nk:], bk[n.key()].kids[nk:], sub, validated)
+                    adds += sub
+            for n in new:
+                self.C(paddr, n, adds, validated)
+        out += dels + adds
